@@ -26,6 +26,23 @@ fn main() {
         }
     };
     report::quiet_panics();
+    // A logger that discards everything, enabled up to Info: the arguments of the library's error! / warn! / info!
+    // calls are then evaluated as they are in an application that logs (debug! / trace! stay off: they format whole
+    // polytopes on hot paths).
+    struct Sink;
+    impl log::Log for Sink {
+        fn enabled(&self, m: &log::Metadata) -> bool {
+            m.level() <= log::Level::Info
+        }
+        fn log(&self, r: &log::Record) {
+            // force the formatting of the message
+            let _ = format!("{}", r.args());
+        }
+        fn flush(&self) {}
+    }
+    static SINK: Sink = Sink;
+    let _ = log::set_logger(&SINK);
+    log::set_max_level(log::LevelFilter::Info);
     let code = props::dispatch(&args[1], tier);
     std::process::exit(code);
 }
